@@ -296,10 +296,10 @@ def r06_7(run, model):
 
 def run(run, model):
     mir = Mir(run.facts)
-    r06_1(run, model, mir)
-    r06_2(run, model)
-    r06_3(run, model)
-    r06_4(run, model)
-    r06_5(run, model)
-    r06_7(run, model)
+    run.try_rule(r06_1, model, mir)
+    run.try_rule(r06_2, model)
+    run.try_rule(r06_3, model)
+    run.try_rule(r06_4, model)
+    run.try_rule(r06_5, model)
+    run.try_rule(r06_7, model)
     run.assume("tast_builder::build_pat and compile_struct_case read struct-pattern arguments positionally in declaration order (read and confirmed)")
